@@ -92,17 +92,33 @@ def build_sandbox(S, targets):
 _SB = {}
 
 
+FLAVOURS = {'linux': ('.lexaloffle', 'pico-8'), 'windows': ('AppData', 'Roaming', 'pico-8'), 'macos': ('Library', 'Application Support', 'pico-8')}
+
+
+def remap(comps, flavour):
+    """the PICO-8 carts folder is ~/.lexaloffle/pico-8/carts on Linux (what PathJail.tla prints), ~/AppData/Roaming/pico-8/carts
+    on Windows, ~/Library/Application Support/pico-8/carts on macOS: the same component-wise rule for each"""
+    comps = list(comps)
+    if flavour != 'linux' and comps[:3] == ['home', '.lexaloffle', 'pico-8']:
+        return ['home'] + list(FLAVOURS[flavour]) + comps[3:]
+    return comps
+
+
 def _include_case(item):
     """item: (arg, loc case dict, all targets for this location)"""
-    arg, case, targets, tmp = item
+    arg, case, targets, tmp = item[:4]
+    flavour = item[4] if len(item) > 4 else 'linux'
+    if flavour != 'linux':
+        case = dict(case, cartdir=remap(case['cartdir'], flavour), root=remap(case['root'], flavour))
+        targets = [remap(t, flavour) for t in targets]
     from pico8.game import file as gfile
     ensure_hook()
-    key = ('inc', case['loc'])
+    key = ('inc', case['loc'], flavour)
     if key not in _SB:
-        S = tempfile.mkdtemp(prefix='c12i_%s_' % case['loc'], dir=tmp)
+        S = tempfile.mkdtemp(prefix='c12i_%s_%s_' % (case['loc'], flavour), dir=tmp)
         build_sandbox(S, targets)
         os.makedirs(os.path.join(S, *case['cartdir']), exist_ok=True)
-        os.makedirs(os.path.join(S, 'home', '.lexaloffle', 'pico-8', 'carts'), exist_ok=True)
+        os.makedirs(os.path.join(S, *remap(['home', '.lexaloffle', 'pico-8', 'carts'], flavour)), exist_ok=True)
         _SB[key] = S
     S = _SB[key]
     cart = os.path.join(S, *case['cartdir'], 'cart.p8')
@@ -208,6 +224,17 @@ def _require_case(item):
     out = os.path.join(S, 'out', 'out.p8')
     if os.path.exists(out):
         os.unlink(out)
+    # a canary also where a loader that resolves the string against the OUTPUT cart's directory would look
+    if not a.startswith('/') and ';' not in a:
+        for cand in (a, a + '.lua'):
+            alt = os.path.normpath(os.path.join(S, 'out', cand))
+            if alt.startswith(S + os.sep) and not os.path.exists(alt) and alt != out:
+                try:
+                    os.makedirs(os.path.dirname(alt), exist_ok=True)
+                    with open(alt, 'wb') as f:
+                        f.write(b'canary_out_relative=1\n')
+                except OSError:
+                    pass
     argv = ['--quiet', 'build', out, '--lua', main]
     env_old = os.environ.get('PICO8_LUA_PATH')
     os.environ.pop('PICO8_LUA_PATH', None)
@@ -236,7 +263,7 @@ def _require_case(item):
         if env_old is not None:
             os.environ['PICO8_LUA_PATH'] = env_old
     skip = {os.path.abspath(main), os.path.abspath(out)}
-    opens = [comps_of(p, S) for p in _A['opens'] if os.path.abspath(p) not in skip and not p.startswith(os.path.join(S, 'out'))]
+    opens = [comps_of(p, S) for p in _A['opens'] if os.path.abspath(p) not in skip]
     must = all(not c['inside'] for c in case['cands'])
     return {'roots': case['roots'], 'opens': opens, 'mustError': must, 'outcome': outcome}, err
 
@@ -266,6 +293,8 @@ def run_mode(ctx, mode, maxlen):
             targets = [x['cases'][li]['target'] for x in recs]
             for x in recs:
                 items.append((x['arg'], x['cases'][li], targets, ctx.tmp))
+                if x['cases'][li]['loc'] != 'plain' and len(items) % 3 == 0:
+                    items.append((x['arg'], x['cases'][li], targets, ctx.tmp, ('windows', 'macos')[(len(items) // 3) % 2]))
         fn = _include_case
     else:
         for ci in range(5):
@@ -339,6 +368,51 @@ def _load_history(item):
     return out
 
 
+def nested_require(ctx):
+    """a package in a subdirectory requires a name: the roots of THAT require are the package's own directory (and the
+    load path relative to it), not the main program's directory"""
+    from pico8 import tool
+    ensure_hook()
+    traces, meta = [], []
+    for name, lp in (('b', None), ('lib/b', None), ('b', 'lib/?.lua'), ('b', '?.lua;?/init.lua')):
+        S = tempfile.mkdtemp(prefix='c12n_', dir=ctx.tmp)
+        for d in ('proj/sub', 'proj/lib', 'proj/sub/lib', 'proj/b', 'out'):
+            os.makedirs(os.path.join(S, d), exist_ok=True)
+        open(os.path.join(S, 'proj', 'main.lua'), 'wb').write(b'local a = require("sub/a")\n')
+        open(os.path.join(S, 'proj', 'sub', 'a.lua'), 'wb').write(b'local b = require("' + name.encode() + b'")\nreturn {}\n')
+        # canaries only where the main program's directory (not the package's) would lead
+        for rel in ('proj/b.lua', 'proj/lib/b.lua', 'proj/b/init.lua', 'proj/lib/b/init.lua', 'out/b.lua'):
+            os.makedirs(os.path.dirname(os.path.join(S, rel)), exist_ok=True)
+            open(os.path.join(S, rel), 'wb').write(b'canary=1\n')
+        argv = ['--quiet', 'build', os.path.join(S, 'out', 'o.p8'), '--lua', os.path.join(S, 'proj', 'main.lua')] + (['--lua-path', lp] if lp else [])
+        _A.update(on=True, root=S, opens=[])
+        outcome = 'ok'
+        try:
+            rc = tool.main(argv)
+            if rc not in (0, None):
+                outcome = 'error'
+        except SystemExit as e:
+            outcome = 'error' if e.code not in (0, None) else 'ok'
+        except Exception:
+            outcome = 'error'
+        finally:
+            _A['on'] = False
+        skip = {os.path.join(S, 'proj', 'main.lua'), os.path.join(S, 'proj', 'sub', 'a.lua'), os.path.join(S, 'out', 'o.p8')}
+        opens = [comps_of(p_, S) for p_ in _A['opens'] if os.path.abspath(p_) not in skip]
+        traces.append({'roots': [['proj', 'sub']], 'opens': opens, 'mustError': True, 'outcome': outcome})
+        meta.append((name, lp))
+        shutil.rmtree(S, ignore_errors=True)
+    v = ctx.validate('TracePaths', traces)
+    for (name, lp), t, vv in zip(meta, traces, v):
+        ctx.evaluations += 1
+        if vv[0] == 'ok':
+            ctx.nontrivial += 1
+        else:
+            ctx.violation('nested-require/%s/%s' % (vv[0], 'loadpath' if lp else 'default'),
+                          'proj/sub/a.lua requires "%s" (load path %s), which exists only relative to the MAIN program\'s directory: %s; outcome %s; opened %s' % (
+                              name, lp or 'default', vv[0], t['outcome'], ['/'.join(o) for o in t['opens']]), {'kind': 'nested-require', 'name': name, 'lua_path': lp})
+
+
 def load_histories(ctx):
     import itertools
     kinds = [(d, inc, how) for d in (('proj',), ('proj', 'sub'), ('proj', 'sub', 'deep')) for inc in ('x.lua', '../x.lua', '../../x.lua', '../projx/x.lua')
@@ -377,6 +451,7 @@ def run(ctx):
     recs = run_mode(ctx, 'include', n)
     run_mode(ctx, 'require', n)
     load_histories(ctx)
+    nested_require(ctx)
     # canaries
     v = ctx.validate('TracePaths', [{'roots': [['w', 'foo']], 'opens': [['w', 'foobar', 'x.lua']], 'mustError': True, 'outcome': 'ok'},
                                      {'roots': [['w', 'foo']], 'opens': [], 'mustError': True, 'outcome': 'ok'},
